@@ -4,9 +4,9 @@ Spec: specs/Encryption.tla (+ EncryptionGen, EncryptionTrace).
 1. TLC proves on the bounded universe of abstract containers (9 container kinds) that the reference
    pipeline satisfies: detector verdict = Encrypted(c) wherever the format documents decide,
    no yield before the reject, every MUST container ends in the encrypted error, no MUSTNOT container
-   does.  Five sensitivity runs (one per named as-built deviation) must each produce a counterexample.
+   does.  Six sensitivity runs (one per named as-built deviation) must each produce a counterexample.
 2. TLC enumerates the universe (-dump); every abstract container is built for real (own CFB / ZIP / 7z
-   writers, BIFF record streams, edited ODF manifests, pypdf-encrypted PDFs, EPUB DRM files), projected
+   writers, BIFF record streams, edited ODF manifests, PDFs encrypted by the independent mbv/c08_pdfcrypt.py, EPUB DRM files), projected
    back by independent parsers (self-check), and pushed through the direct extractor, read_file and
    cli.main in worker processes; wrappers record Detect / Yield / Raise / End events.
 3. Every recorded trace is validated by TLC against EncryptionTrace (which re-uses the operators and
@@ -31,10 +31,10 @@ from ..tlc import MachineryError, run_tlc
 from ..traces import validate
 
 DEVIATIONS = ["Odf!SubstringDetector", "Zip!AnyRuntimeErrorIsEncrypted", "SevenZ!EncryptedHeaderIsInvalid",
-              "Ppt!StreamNamesOnly", "Pdf!AesFallbackOnlyAtOpen"]
+              "Ppt!StreamNamesOnly", "Pdf!AesFallbackOnlyAtOpen", "Odf!FallbackSubstring"]
 SENS_INV = {"Odf!SubstringDetector": "Inv_DetectorAgrees", "Zip!AnyRuntimeErrorIsEncrypted": "Inv_PlainNeverEncrypted",
             "SevenZ!EncryptedHeaderIsInvalid": "Inv_EncryptedRejected", "Ppt!StreamNamesOnly": "Inv_DetectorAgrees",
-            "Pdf!AesFallbackOnlyAtOpen": "Inv_EmptyPasswordExtracts"}
+            "Pdf!AesFallbackOnlyAtOpen": "Inv_EmptyPasswordExtracts", "Odf!FallbackSubstring": "Inv_DetectorAgrees"}
 ALL_KINDS = ["ooxml", "ppt", "xls", "doc", "odf", "pdf", "zip", "sevenz", "epub"]
 INVS = ["Inv_DetectorAgrees", "Inv_NoYieldBeforeReject", "Inv_EncryptedRejected", "Inv_EncryptedNeverYields",
         "Inv_PlainNeverEncrypted", "Inv_EmptyPasswordExtracts"]
@@ -45,7 +45,7 @@ NWORK = 12
 def _cfg(spec, dev, bounds, kinds=ALL_KINDS, invs=()):
     ks = ", ".join('"%s"' % k for k in kinds)
     ds = ", ".join('"%s"' % d for d in dev)
-    return (f"SPECIFICATION {spec}\nCONSTANTS Deviations = {{{ds}}}\n GenKinds = {{{ks}}}\n PdfSweep = \"{bounds['pdfsweep']}\"\n"
+    return (f"SPECIFICATION {spec}\nCONSTANTS Deviations = {{{ds}}}\n GenKinds = {{{ks}}}\n PdfSweep = \"{bounds['pdfsweep']}\"\n OdfSweep = \"{bounds['odfsweep']}\"\n"
             f" MaxRecs = {bounds['recs']}\n MaxEntries = {bounds['entries']}\n MaxMembers = {bounds['members']}\n"
             f" MaxFolders = {bounds['folders']}\n" + "".join(f"INVARIANT {i}\n" for i in invs))
 
@@ -83,13 +83,14 @@ def _mk_cases(containers, ctx):
     for c, cls in by_kind.get("xls", []):
         add(c, cls, "xls")
     for c, cls in by_kind.get("doc", []):
-        for w in (0, 1, 2):
+        for w in (0, 1, 2, 3):            # three repository fixtures + one generated document
             add(c, cls, "doc", which=w)
     odf = by_kind.get("odf", [])
     for n, (c, cls) in enumerate(odf):
         fmts = ["odt", "ods", "odp", "odg", "odf"]
         if not ctx.thorough:
-            fmts = fmts if len(c["entries"]) == 1 else [fmts[(n + ctx.seed) % 5]]
+            default = (c["doctype"], c["prolog"], c["order"]) == ("none", "none", "path-first") and c["enc"] in ("utf8", "utf16")
+            fmts = fmts if len(c["entries"]) == 1 and default else [fmts[(n + ctx.seed) % 5]]
         for f in fmts:
             add(c, cls, f)
     for c, cls in by_kind.get("pdf", []):
@@ -106,8 +107,8 @@ def _mk_cases(containers, ctx):
 
 def run(ctx):
     ev, v = ctx.ev, ctx.v
-    bounds = ({"recs": 4, "entries": 3, "members": 3, "folders": 2, "pdfsweep": "full"} if ctx.thorough
-              else {"recs": 3, "entries": 2, "members": 2, "folders": 2, "pdfsweep": "diag"})
+    bounds = ({"recs": 4, "entries": 3, "members": 3, "folders": 2, "pdfsweep": "full", "odfsweep": "full"} if ctx.thorough
+              else {"recs": 3, "entries": 2, "members": 2, "folders": 2, "pdfsweep": "diag", "odfsweep": "star"})
     # the theorem runs may use larger bounds than the replay (no artefact has to be built for them)
     tbounds = dict(bounds, recs=bounds["recs"] + 1)
 
@@ -128,7 +129,7 @@ def run(ctx):
     def gen():
         return run_tlc("EncryptionGen", _cfg("GenSpec", [], bounds, kinds=kinds), scratch=ctx.scratch, workers=2,
                        timeout=900, dump=dump)
-    with ThreadPoolExecutor(7) as ex:
+    with ThreadPoolExecutor(8) as ex:
         f_th = ex.submit(theorem)
         f_gen = ex.submit(gen)
         f_sens = {d: ex.submit(sens, d) for d in DEVIATIONS}
@@ -144,7 +145,7 @@ def run(ctx):
         rg = f_gen.result()
     ev.tlc("EncryptionGen: enumeration of the abstract containers", rg)
     ctx.log(f"TLC: theorem {r.distinct} states {r.wall_s:.1f}s, enumeration {rg.distinct} states {rg.wall_s:.1f}s, "
-            f"5 sensitivity runs ok")
+            f"6 sensitivity runs ok")
     dpath = dump if dump.exists() else Path(str(dump) + ".dump")
     containers = sorted(((_plain(s["c"]), str(s["pc"])) for s in iter_dump(dpath)),
                         key=lambda t: json.dumps(t[0], sort_keys=True))
@@ -259,8 +260,9 @@ def run(ctx):
            constants={**bounds, "kinds": kinds, "containers": len(containers), "cases": len(cases), "entries": ENTRIES,
                       "fixture_traces": len(fx)})
     ev.assume("format-document readings transcribed by hand into Encryption.tla (Class*)",
-              "PDF: pypdf's writer produces the encrypted PDFs (AES via the library's own fallback, validated by C20); "
-              "an empty owner password with a non-empty user password cannot be written and is not in the universe",
+              "PDF: the encrypted PDFs are written by mbv/c08_pdfcrypt.py (own AES / RC4 / standard security handler, "
+              "vectors checked on import), not by the code under test; an empty owner password next to a non-empty user "
+              "password is not in the universe",
               "PPT / DOC / XLS / ZIP cases are FLAGGED as encrypted by the format's mechanism (some ZIP members are "
               "really ZipCrypto-encrypted); 7z AES streams carry random bytes",
               "quick tier replays every container in at least one format; thorough in all")
@@ -341,7 +343,7 @@ def _build_one(case, cdir, rng, B):
         data, proj = B.build_odf(c, ext, rng), B.project_odf
     elif k == "pdf":
         plain = B.plain_pdf_for(c, case.get("rep", 0))
-        data, proj = B.build_pdf(c, rng, plain), B.project_pdf
+        data, proj = B.build_pdf(c, rng, plain, case.get("rep", 0)), B.project_pdf
         (cdir / f"{case['id']}").mkdir(exist_ok=True)
         (cdir / f"{case['id']}" / "plain.pdf").write_bytes(plain)
     elif k == "zip":
@@ -369,11 +371,7 @@ def _worker_build(inp, out, cdir):
     import warnings
     warnings.simplefilter("ignore")
     from .. import c08_build as B
-    from sharepoint2text.parsing.extractors.pdf._pypdf_aes_fallback import patch_pypdf_fallback_aes
     cases = json.loads(Path(inp).read_text())
-    if any(c["c"]["kind"] == "pdf" for c in cases):
-        if not patch_pypdf_fallback_aes():
-            raise RuntimeError("cannot enable the AES fallback for writing test PDFs")
     res = []
     for case in cases:
         res.append(_build_one(case, Path(cdir), random.Random(case["seed"]), B))
